@@ -94,7 +94,7 @@ def finish(run, spec, proof, sw):
     Decides the verdict, prints VIOLATION / KNOWN-FINDING lines, writes evidence; returns exit code.
     """
     prop = run.prop
-    findings = [f for f in load_known_findings().get("findings", []) if f["property"] == prop]
+    findings = [f for f in load_known_findings().get("findings", []) if prop in f.get("properties", [f.get("property")])]
     listed = {f["id"]: f for f in findings}
 
     # --- proof obligations
